@@ -162,7 +162,7 @@ struct DeadlineCall {
 }
 
 fn draw_deadline_call(sim: &Sim, base_ms: u64, server: Option<Duration>, endpoint: Option<Duration>) -> DeadlineCall {
-    let mk = |sim: &Sim| -> Option<Duration> { mk_timeout(sim, base_ms) };
+    let mk = |sim: &Sim| -> Option<Duration> { mk_timeout_for(sim, base_ms, true) };
     // the caller's header: absent, a proper timeout, or a malformed value (which must be ignored:
     // the call then behaves exactly as if no header had been sent)
     let malformed: Option<&'static str> = if sim.chance(1, 5) { Some(sim.pick(&["10x", "123456789S", "+5S", "S", "5", "1.5S", "5 S", "-1m", "u5"])) } else { None };
@@ -173,7 +173,10 @@ fn draw_deadline_call(sim: &Sim, base_ms: u64, server: Option<Duration>, endpoin
         let t = UNITS.iter().map(|(_, u)| (ns / u, *u)).find(|(v, _)| *v <= 99_999_999).map(|(v, u)| v * u).unwrap_or(ns);
         Duration::new((t / 1_000_000_000) as u64, (t % 1_000_000_000) as u32)
     });
-    let d: Option<Duration> = [caller_wire, server, endpoint].iter().flatten().min().copied();
+    let d: Option<Duration> = [caller_wire, server, endpoint].iter().flatten().filter(|t| **t < UNBOUNDED).min().copied();
+    if [caller, server, endpoint].iter().flatten().any(|t| *t >= UNBOUNDED) {
+        sim.fault("practically-unbounded-timeout-configured");
+    }
     // handler latency around the boundary
     let latency: Option<Duration> = match d {
         None => Some(Duration::from_millis(sim.pick(&[0u64, 1, 500]))),
@@ -189,8 +192,21 @@ fn draw_deadline_call(sim: &Sim, base_ms: u64, server: Option<Duration>, endpoin
     DeadlineCall { caller, malformed, d, latency }
 }
 
+/// timeouts of this size mean "unbounded" (a configured Duration::MAX must behave like none)
+const UNBOUNDED: Duration = Duration::from_secs(1_000_000_000);
+
 fn mk_timeout(sim: &Sim, base_ms: u64) -> Option<Duration> {
-    match sim.weighted(&[3, 2, 2, 1]) {
+    mk_timeout_for(sim, base_ms, false)
+}
+
+/// `caller`: a timeout passed to `Request::set_timeout` — the property covers durations up to the
+/// largest representable one, 99999999 hours (beyond it `set_timeout` panics by design);
+/// configured timeouts (`Server::timeout`, `Endpoint::timeout`) are never encoded and may be
+/// anything up to `Duration::MAX`.
+fn mk_timeout_for(sim: &Sim, base_ms: u64, caller: bool) -> Option<Duration> {
+    match sim.weighted(&[6, 4, 4, 2, 1]) {
+        4 if caller => Some(Duration::from_secs(3600 * sim.pick(&[99_999_999u64, 50_000_000, 1_000_000]))),
+        4 => Some(sim.pick(&[Duration::MAX, Duration::from_secs(u64::MAX / 2), Duration::from_secs(i64::MAX as u64), Duration::from_secs(10_000_000_000)])),
         0 => None,
         1 => Some(Duration::from_millis(base_ms)),
         2 => Some(Duration::from_millis(base_ms) + Duration::from_micros(sim.pick(&[0u64, 1, 999, 1000, 2500, 50_000]))),
